@@ -49,6 +49,8 @@ def spec_classes(spec, prob):
         c.append("mixed_data_units")
     if spec.get("t_ref") is not None:
         c.append("custom_t_ref")
+    if spec.get("row_dtype") == "f4":
+        c.append("float32 library")
     return c, means
 
 
@@ -139,8 +141,8 @@ def body_factory(ctx):
 
 @st.composite
 def cases(draw, thorough=False):
-    spec = draw(gens.problems(max_surveys=4 if thorough else 3, max_epochs=40 if thorough else 8,
-                              max_poly=4 if thorough else 3, n_rows=(8, 16) if thorough else (4, 8)))
+    spec = draw(gens.problems(max_surveys=4 if thorough else 3, max_epochs=80 if thorough else 8,
+                              max_poly=4 if thorough else 3, n_rows=(8, 16) if thorough else (4, 8), allow_f4=True))
     spec["path"] = draw(st.sampled_from(["mem", "mem", "mem", "cache", "file"]))
     if spec["path"] != "mem":
         spec["n_batches"] = draw(st.one_of(st.none(), st.integers(1, len(spec["rows"]) + 2)))
